@@ -352,7 +352,7 @@ class Check:
     # --- standard phases
     def phase_translator(self, items):
         st = run_translator()
-        self.cov["translator"] = {k: st.get(k, "missing") for k in items}
+        self.cov.setdefault("translator", {}).update({k: st.get(k, "missing") for k in items})
         for k in items:
             if st.get(k) != "ok":
                 self.problem("translator", f"translator:{k}", st.get(k, "item missing from status.json"))
